@@ -94,7 +94,8 @@ def explore(nprocs, ts_set, conds, calls, max_states=20000, max_runs=60000):
     ORACLE.stack.append([])
     traces = []
     runs = 0
-    while ORACLE.stack and runs < max_runs:
+    stalls = 0
+    while ORACLE.stack and runs < max_runs and stalls < 6:
         prefix = ORACLE.stack.pop()
         runs += 1
         ORACLE.start(prefix, calls)
@@ -120,6 +121,7 @@ def explore(nprocs, ts_set, conds, calls, max_states=20000, max_runs=60000):
             if rec.events and rec.events[-1][0] == 'ts':
                 rec.events.pop()
         except Stall:
+            stalls += 1
             rec.events.append(('stall',))
         except BaseException as e:  # noqa
             # the store wraps exceptions raised inside callbacks: a wrapped Prune is a cut
@@ -127,6 +129,7 @@ def explore(nprocs, ts_set, conds, calls, max_states=20000, max_runs=60000):
                 if rec.events and rec.events[-1][0] == 'ts':
                     rec.events.pop()
             elif rec.stalled:
+                stalls += 1
                 rec.events.append(('stall',))
             else:
                 rec.events.append(('exc', type(e).__name__ + ': ' + str(e)[:200]))
